@@ -54,7 +54,8 @@ def run(ctx):
         summ = ff.summary(p)
         if summ["cases"] != n:
             raise vlib.HarnessError("replayer consumed %d of %d cases" % (summ["cases"], n))
-        rows, bad, notes = ff.judge(ctx, "C16", rec, d)
+        rows, bad, notel = ff.judge(ctx, "C16", rec, d)
+        notes = len(notel)
         if len(rows) != summ["records"]:
             raise vlib.HarnessError("record count mismatch")
         groups = {}
